@@ -312,6 +312,12 @@ def do_cost_grid(args):
                             if t:
                                 params += gen.yes_enc_uint(t, 1)
                         combos.append(((fl, nl, rr, p, t), gen.TAG[m] + params + b"$" + salt))
+        # parameters that need the two-character spelling of yescrypt's number code (values >= 49), at a small N
+        for rr in (47, 48, 49, 50, 51, 56, 57, 64, 65, 112, 113):
+            combos.append(((b"j", 4, rr, 1, 0), gen.TAG[m] + b"j" + gen.yes_enc_uint(4, 1) + gen.yes_enc_uint(rr, 1) + b"$" + salt))
+        for p in (48, 49, 50, 51, 52, 64):
+            combos.append(((b"j", 10, 1, p, 0), gen.TAG[m] + b"j" + gen.yes_enc_uint(10, 1) + gen.yes_enc_uint(1, 1)
+                           + gen.yes_enc_uint(1, 1) + gen.yes_enc_uint(p, 2) + b"$" + salt))
     lines = [rt.crypt_line("crypt_rn", 0, phrase, s) for _, s in combos]
     rows = rt.run_resilient(w, [rt.obj_line(0), "mapcap %d" % (256 << 20)], lines, timeout=600)
     seen = {}
